@@ -658,9 +658,9 @@ func init() {
 		if prevC05 != nil {
 			prevC05(c)
 		}
-		runSmtpProfile(c, smtpProfile{name: "c05smtp", n: [2]int{700, 25000}, errRate: 8, namings: allNamings})
+		runSmtpProfile(c, smtpProfile{name: "c05smtp", n: [2]int{700, 25000}, errRate: 8, namings: allNamings, wildLists: true})
 		// the recipient bound and the policy must hold whatever extensions answer (allow overrides the policy, not the bound)
-		runSmtpProfile(c, smtpProfile{name: "c05hooks", n: [2]int{400, 12000}, errRate: 5, hooks: true, namings: allNamings})
+		runSmtpProfile(c, smtpProfile{name: "c05hooks", n: [2]int{400, 12000}, errRate: 5, hooks: true, namings: allNamings, wildLists: true})
 	}
 	register("C17", func(c *core.Ctx) {
 		c.Res.Rule = smtpRule + "; with Go-level before-hooks answering allow / deny(code,msg) / defer for random addresses of the dialogue and replacing random inbound messages (mailboxes, sender, recipients, subject)"
